@@ -22,6 +22,7 @@ type flowRef struct {
 	Params  map[string]map[string][]string `json:"params"`  // area -> "func | param#i" -> required facts
 	Relax   []string                       `json:"relaxing_options"` // option constructors documented as unsafe: they switch constraints off
 	RelaxOK map[string]map[string]int      `json:"relaxing_sites"`   // area -> function -> reviewed number of call sites passing such an option
+	FnMust  map[string]map[string][]string `json:"fnmust"`  // area -> "func | must-sites" -> "Kind#n": constraint sites executed on every successful path
 	FnSites map[string]map[string][]string `json:"fnsites"` // area -> "func | hint-sites" -> "Kind#n": distinct sink sites reached by the function's hint outputs
 	Exempt  map[string]string              `json:"exempt"`  // "func | source key" -> reason (FLOW-SOME exemptions)
 }
@@ -765,6 +766,7 @@ func init() {
 		allP := map[string]map[string][]string{}
 		allF := map[string]map[string][]string{}
 		allR := map[string]map[string]int{}
+		allM := map[string]map[string][]string{}
 		refNow, _ := loadFlowRef()
 		var areas []string
 		for a := range flowAreas {
@@ -778,6 +780,13 @@ func init() {
 			all[a] = emitFlow(p, e, pkgScope(flowAreas[a]...))
 			allF[a] = map[string][]string{}
 			allR[a] = map[string]int{}
+			allM[a] = map[string][]string{}
+			mm, _ := fnMust(p, pkgScope(flowAreas[a]...))
+			for k, v := range mm {
+				if sl := siteList(v); len(sl) > 0 {
+					allM[a][k] = sl
+				}
+			}
 			if refNow != nil {
 				rs, _ := relaxSites(p, refNow, pkgScope(flowAreas[a]...))
 				for k, v := range rs {
@@ -796,7 +805,7 @@ func init() {
 				}
 			}
 		}
-		b, _ := json.MarshalIndent(map[string]any{"sources": all, "params": allP, "fnsites": allF, "relaxing_sites": allR}, "", " ")
+		b, _ := json.MarshalIndent(map[string]any{"sources": all, "params": allP, "fnsites": allF, "relaxing_sites": allR, "fnmust": allM}, "", " ")
 		fmt.Println(string(b))
 		return 0
 	}
